@@ -87,6 +87,10 @@ class FileGen:
         from . import mine
         pad = rnd.choice([0, 0, 1, 7, 63, 64, 200, 4000, 4095, 4096, 4097, 4160, 8192, 8193, 16384, 16448, 65536, 65537] +
                          [h + d for h in mine.size_hints(512) for d in (1, 64)]) if pad is None else pad
+        if n >= 2 and (n + pad) % 3 == 0:
+            recs[-1] = recs[-2]                 # equal neighbouring records
+            if n >= 5:
+                recs[2] = recs[1]
         return {'ver': 2, 'tmap': self.tmap(), 'recs': list(range(1, n + 1)), '_recs': recs, '_pad': pad}
 
     def block(self, kind, strings, minlogs=0):
@@ -128,6 +132,12 @@ class FileGen:
         blocks = [self.block(kd, strings, 2 if force_logs else 0) for kd in kinds]
         if any(b['tag'] == 'logs' for b in blocks) or rnd.random() < 0.2:
             blocks.insert(rnd.randrange(0, len(blocks) + 1), {'tag': 'strings', 'idx': strings})
+        if n >= 2 and (n + k + nb) % 3 == 0:
+            # EQUAL neighbouring records ("all record contents"): across every chunk boundary (also over an empty chunk) and
+            # inside the first chunk.  Decided by the file's shape, not drawn from the random stream.
+            for c in sorted(set(cuts) | {1}):
+                if 0 < c < n:
+                    recs[c] = recs[c - 1]
         return {'ver': 3, 'tmap': self.tmap(), 'chunks': chunks, 'blocks': blocks, '_recs': recs,
                 '_fills': [self.fill(60, decoy=True, big=True), self.fill(20, big=True), self.fill(12, big=True), self.fill(9)]}
 
@@ -217,7 +227,15 @@ def encode_file(f):
         blocks.append((TAGS[t], payload))
     chunks = [[f['_recs'][i - 1] for i in ch] for ch in f['chunks']]
     fl = f['_fills']
-    return E.encode_v3(tm, chunks, blocks, fill1=fl[0], fill2=fl[1], fill3=fl[2], more_fill=fl[3])
+    # the header is part of "every version-3 dump": its cpu-info plist has any length (so the 8-byte alignment pad after it
+    # takes every value 0..7) and its scalar fields any value.  Derived from the file's shape, NOT drawn from the generator's
+    # random stream, so that the files of a seed stay the files they were.
+    hv = len(f['_recs']) * 5 + len(f['blocks']) * 3 + len(f['tmap']) + sum(len(c) for c in f['chunks'][:1])
+    cpu = {'cpus': 2 + hv % 3, 'pad': 'x' * (hv % 9)} if hv % 4 else None
+    hdr = {'numer': 1 + hv % 200, 'denom': 1 + hv % 7, 'timestamp': hv * 7919, 'secs': 1600000000 + hv, 'usecs': hv % 1000,
+           'mw': hv % 720, 'dst': hv % 2, 'flags': hv % 4, 'length': hv % 64} if hv % 4 else None
+    return E.encode_v3(tm, chunks, blocks, fill1=fl[0], fill2=fl[1], fill3=fl[2], more_fill=fl[3], cpu_info=cpu,
+                       header_fields=hdr)
 
 
 def reader_of(rnd, blob):
@@ -244,7 +262,20 @@ def project_item(item, index):
     if isinstance(item, OsLogEvent):
         return {'k': 'log', 'msg': item.composed_message, 'proc': item.process,
                 'tid': atid(item.thread_identifier), 'pid': apid(item.process_identifier)}
-    return {'k': 'ev', 'id': index.get(tuple(item), -1)}
+    ids = index.get(tuple(item), -1)
+    if isinstance(ids, list):
+        # equal records (the kernel may well log the same 64 bytes twice): the k-th yield of that content is the k-th record
+        # of that content in the file; one yield too many of it is a record the file does not have
+        return {'k': 'ev', 'id': ids.pop(0) if ids else -1}
+    return {'k': 'ev', 'id': ids}
+
+
+def make_index(recs):
+    """decoded content -> ids (1-based positions) of the records with that content, ascending; consumed by project_item"""
+    index = {}
+    for i, r in enumerate(recs):
+        index.setdefault(independent_decode(r), []).append(i + 1)
+    return index
 
 
 def meta_of(kp):
@@ -284,7 +315,7 @@ def parse_history(files, via='kdbuf', rnd=None):
         return reader_of(rnd, b)
     for fi, f in enumerate(files):
         blob, layout = encode_file(f)
-        index = {independent_decode(r): i + 1 for i, r in enumerate(f['_recs'])}
+        index = make_index(f['_recs'])
         p = {'file': public(f)}
         try:
             if via == 'api':
